@@ -102,10 +102,13 @@ func LoadProgram(cfg LoadConfig) (*Engine, error) {
 		return nil, fmt.Errorf("package errors:\n%s", strings.Join(errs, "\n"))
 	}
 	prog, spkgs := ssautil.AllPackages(pkgs, ssa.InstantiateGenerics|ssa.SanityCheckFunctions&0)
-	for _, p := range spkgs {
-		if p != nil {
-			p.Build()
-		}
+	_ = spkgs
+	// Build every package before any worker starts: lazily building a package while
+	// another worker interprets one of its functions would race on the SSA.
+	t0 := time.Now()
+	prog.Build()
+	if os.Getenv("GOSYM_TIMING") != "" {
+		fmt.Fprintf(os.Stderr, "ssa build of all packages: %.1fs\n", time.Since(t0).Seconds())
 	}
 	e := &Engine{
 		prog: prog, pkgs: pkgs, fset: prog.Fset,
